@@ -9,6 +9,8 @@ pub const DEFAULT_SEED: u64 = 0x5157_414e_5455_5331; // fixed default: "QWANTUS1
 /// `VERIF_SEED` or the fixed default.
 pub fn seed_from_env() -> u64 {
     match std::env::var("VERIF_SEED") {
+        // an empty value means "not given"
+        Ok(s) if s.trim().is_empty() => DEFAULT_SEED,
         Ok(s) => s.trim().parse::<u64>().unwrap_or_else(|_| {
             // accept negative / hex forms deterministically
             let t = s.trim();
